@@ -69,6 +69,10 @@ func (t *txnGen) appOps(n int) string {
 	for i := 0; i < n; i++ {
 		if len(t.order) == 0 || t.r.Intn(12) == 0 {
 			name := []string{"t", "u", "w"}[t.r.Intn(3)]
+			if t.native && t.r.Intn(4) == 0 {
+				// left over from a migration from shadow mode: never part of a snapshot
+				name = []string{"_sync_shadow_t", "_sync_meta"}[t.r.Intn(2)]
+			}
 			if _, ok := t.dbis[name]; !ok {
 				fl := uint(0)
 				switch t.r.Intn(6) {
